@@ -210,6 +210,9 @@ func genC19(r *gen.Rand, maxCalls int) *C19Case {
 		o := genObserve(r, i)
 		// bias: observations after at least one merge, some between merges
 		pos := r.Range(1, len(ops))
+		if r.Chance(0.05) {
+			pos = 0 // observing an empty parser is legal too
+		}
 		ops = append(ops[:pos], append([]wire.Op{o}, ops[pos:]...)...)
 	}
 	c.Ops = ops
